@@ -14,7 +14,7 @@ SQ2PI = math.sqrt(2.0 * math.pi)
 
 
 # ------------------------------------------------------------------------------------ exact KDE
-def exact_pdf(sample, h, x, chunk=2_000_000):
+def exact_pdf(sample, h, x, chunk=262_144):
     """(1/(n h sqrt(2 pi))) sum_i exp(-(x-s_i)^2/(2 h^2)), no truncation."""
     s = np.asarray(sample, dtype=float).ravel()
     x = np.atleast_1d(np.asarray(x, dtype=float))
@@ -26,7 +26,7 @@ def exact_pdf(sample, h, x, chunk=2_000_000):
     return out / (s.size * h * SQ2PI)
 
 
-def exact_cdf(sample, h, x, chunk=2_000_000):
+def exact_cdf(sample, h, x, chunk=262_144):
     """(1/n) sum_i Phi((x-s_i)/h), written with erfc on the lower side so the far tails keep relative accuracy."""
     from scipy.special import erfc
 
